@@ -144,7 +144,7 @@ def gen_multi_case(rng):
     ranges = []
     for i, s in enumerate(starts):
         ranges.append({'marker': rng.choice(['>', '>=']), 'start': s, 'leaf': gen_leaf(rng)})
-    r = rng.choice([s + 0.25 for s in starts] + [starts[-1] + 1.25])
+    r = rng.choice([s + 0.25 for s in starts] + [starts[-1] + 1.25] + [s for s in starts if s > 0])
     return {'multi': ranges, 'r': r}
 
 def py_multi(case):
@@ -281,6 +281,8 @@ def oracle(case):
         if hasattr(f, 'deriv'): checks.append(('deriv', f, f.deriv))
         if hasattr(f, 'deriv2'):
             checks.append(('deriv2', f.deriv if hasattr(f, 'deriv') else (lambda x: richardson(f, x)), f.deriv2))
+    if 'multi' in case and any(x['start'] == r for x in case['multi']):
+        return []          # the statement is about separations away from range boundaries
     try:
         if not (abs(f(r)) < 1e8): return []      # outside the well-conditioned range the oracle can judge
     except Exception:
